@@ -120,12 +120,16 @@ def cycle_boundary(F, rep, rule):
     # function-like node types: Compile::compile builds a CompiledItem::Function
     opens_fn = set()
     for f in c.fns:
+        # the node type whose code generator (its Compile impl, or an inherent method that impl is split into) builds the function item
+        owner = mir.strip_generics(f.d.get("impl_self") or "")
         m = re.match(r"<(compiler::[\w:#]+) as compiler::ast::Compile>::compile$", f.path)
-        if not m:
+        if m:
+            owner = m.group(1)
+        if not owner.startswith("compiler::") or f.path.endswith("as core::clone::Clone>::clone"):
             continue
         for bi, si, dst, rv, s_ in f.assigns():
             if "agg" in rv and rv["agg"].get("adt", "").endswith("ast::CompiledItem") and rv["agg"].get("v") == "Function":
-                opens_fn.add(m.group(1))
+                opens_fn.add(owner)
     if len(opens_fn) < 3:
         raise AnchorMissing("Compile impls that build CompiledItem::Function (found %s)" % sorted(opens_fn))
     # walks that raise the depth
